@@ -1,7 +1,11 @@
 ''' import-only stand-in: EUI48 as a 6-octet value type '''
 
 
-class EUI48(object):
+class HWAddress(object):
+    pass
+
+
+class EUI48(HWAddress):
     def __init__(self, v):
         if isinstance(v, EUI48):
             v = v._b
